@@ -393,6 +393,23 @@ func (h *handler) processUnaryRpc(
 		Metadata: internal.ToKeyValue(sts.GetTrailers()),
 	}
 
+	var respBody *goatorepo.Body
+	var data mem.BufferSlice
+
+	if resp != nil || appErr == nil {
+		data, err = h.codec.Marshal(resp)
+
+		if err == nil {
+			respBody = &goatorepo.Body{
+				Data: data.Materialize(),
+			}
+		} else if appErr == nil {
+			// the handler succeeded but its reply cannot be encoded: the caller
+			// must see a failure, not a success without a body
+			appErr = status.Errorf(codes.Internal, "grpc: error while marshaling: %v", err)
+		}
+	}
+
 	var respStatus *goatorepo.ResponseStatus
 
 	if appErr != nil {
@@ -410,19 +427,6 @@ func (h *handler) processUnaryRpc(
 			Code:    st.Proto().GetCode(),
 			Message: st.Proto().GetMessage(),
 			Details: st.Proto().GetDetails(),
-		}
-	}
-
-	var respBody *goatorepo.Body
-	var data mem.BufferSlice
-
-	if resp != nil {
-		data, err = h.codec.Marshal(resp)
-
-		if err == nil {
-			respBody = &goatorepo.Body{
-				Data: data.Materialize(),
-			}
 		}
 	}
 
